@@ -63,6 +63,7 @@ pub struct L1State {
     pub perm_roots: Vec<[u8; 32]>,
     /// lagging read-only instances (C13): own cached storage manager over the shared database
     pub readers: BTreeMap<u64, Reader>,
+    pub thorough: bool,
     pub restart_permille: u64,
     /// C14: serve read operations through `ReadOnlyDirectory`
     pub readonly: bool,
@@ -86,6 +87,7 @@ impl Default for L1State {
             fx_roots: vec![],
             perm_roots: vec![],
             readers: BTreeMap::new(),
+            thorough: false,
             restart_permille: 0,
             readonly: false,
             rng: crate::rng::Rng::new(7),
@@ -641,6 +643,50 @@ async fn apply_lookup_edit(inst: &Inst, u: &AkdLabel, p: &mut LookupProof, tok: 
         ["nonce.zero"] => p.commitment_nonce = vec![0u8; 32],
         ["marker.rootproof"] => p.marker_proof = MembershipProof { label: p.marker_proof.label, hash_val: AzksValue(rv), sibling_proofs: vec![] },
         ["exist.rootproof"] => p.existence_proof = MembershipProof { label: p.existence_proof.label, hash_val: AzksValue(rv), sibling_proofs: vec![] },
+        ["exvrf.flip", i] | ["exvrf.zero", i] | ["exvrf.inc", i] | ["frvrf.flip", i] | ["mkvrf.flip", i] => {
+            let i: usize = i.parse().map_err(|_| None)?;
+            let target = match parts[0] {
+                "frvrf.flip" => &mut p.freshness_vrf_proof,
+                "mkvrf.flip" => &mut p.marker_vrf_proof,
+                _ => &mut p.existence_vrf_proof,
+            };
+            if i >= target.len() {
+                return Err(None);
+            }
+            match parts[0] {
+                "exvrf.zero" => target[i] = if target[i] == 0 { 0xff } else { 0 },
+                "exvrf.inc" => target[i] = target[i].wrapping_add(1),
+                _ => target[i] ^= 1 << (i % 8),
+            }
+        }
+        ["exvrf.trunc"] => {
+            p.existence_vrf_proof.pop();
+        }
+        ["exvrf.splus"] => {
+            // s := s + l (the group order), still below 2^256: a non-canonical encoding of the same scalar
+            let ell: [u8; 32] = [
+                0xed, 0xd3, 0xf5, 0x5c, 0x1a, 0x63, 0x12, 0x58, 0xd6, 0x9c, 0xf7, 0xa2, 0xde, 0xf9, 0xde, 0x14, 0, 0, 0, 0, 0, 0, 0, 0, 0, 0, 0, 0, 0,
+                0, 0, 0x10,
+            ];
+            if p.existence_vrf_proof.len() == 80 {
+                let mut carry = 0u16;
+                for k in 0..32 {
+                    let v = p.existence_vrf_proof[48 + k] as u16 + ell[k] as u16 + carry;
+                    p.existence_vrf_proof[48 + k] = v as u8;
+                    carry = v >> 8;
+                }
+            }
+        }
+        ["exvrf.other", u2, f, v] => {
+            let u2 = AkdLabel(parse_hex(u2).ok_or(None)?);
+            let fr = match *f {
+                "F" => VersionFreshness::Fresh,
+                "S" => VersionFreshness::Stale,
+                _ => return Err(None),
+            };
+            let v: u64 = v.parse().map_err(|_| None)?;
+            p.existence_vrf_proof = vrf_bytes(&inst.cfg, &u2, fr, v).await.ok_or(Some(()))?;
+        }
         ["swap.exist", u2] | ["swap.marker", u2] | ["swap.fresh", u2] => {
             let u2 = AkdLabel(parse_hex(u2).ok_or(None)?);
             let (q, _, _) = inst.lookup(&u2).await.ok_or(Some(()))?;
@@ -1328,6 +1374,44 @@ fn step_inner(ex: &mut Exec, st: &mut L1State, op: &str, toks: &[&str]) -> Optio
                     })
                 }
                 _ => None,
+            }
+        }
+        "vrfin" if toks.len() == 5 => {
+            let u = AkdLabel(parse_hex(toks[2])?);
+            let fresh = match toks[3] {
+                "F" => VersionFreshness::Fresh,
+                "S" => VersionFreshness::Stale,
+                _ => return None,
+            };
+            let v: u64 = toks[4].parse().ok()?;
+            let h = match toks[1] {
+                "wv1" => Wv1::get_hash_from_label_input(&u, fresh, v),
+                "exp" => Exp::get_hash_from_label_input(&u, fresh, v),
+                _ => return None,
+            };
+            Some(hex_or_dash(&h))
+        }
+        // oracle-only (C18): determinism, agreement of the three ways to derive a node label, verification of the
+        // honest proof, rejection of every single-field alteration, key separation
+        "o.vrf.check" if toks.len() == 5 => {
+            let cfg = toks[1];
+            let u = AkdLabel(parse_hex(toks[2])?);
+            let fresh = match toks[3] {
+                "F" => VersionFreshness::Fresh,
+                "S" => VersionFreshness::Stale,
+                _ => return None,
+            };
+            let v: u64 = toks[4].parse().ok()?;
+            let r = with_cfg!(cfg, TC => st.rt.block_on(crate::vrfcheck::check::<TC>(&u, fresh, v)));
+            match r {
+                Ok(n) => {
+                    ex.stats.bump(op, "ok");
+                    Some(format!("ok {n}"))
+                }
+                Err((tag, what)) => {
+                    ex.fail_tag("C18", &tag, format!("{:?}: {}", toks, what));
+                    Some("FAIL".into())
+                }
             }
         }
         "perm.group" => {
